@@ -45,6 +45,7 @@ type epochInfo struct {
 }
 
 type obligation struct {
+	quickOnly bool
 	name   string
 	fn     string
 	kind   string
@@ -131,6 +132,7 @@ type fgen struct {
 	deferGuard    map[*ssa.Defer]string
 	readRec       map[string]bool // when non-nil, records the heap keys read
 	precise       *preciseInfo    // location-precise modifies items of the function under verification
+	stackLocals   []stackLocal    // non-escaping locals (callees cannot write them)
 }
 
 func (g *fgen) emit(s string) { g.lines = append(g.lines, s) }
@@ -167,6 +169,8 @@ func (g *fgen) sortOf(t types.Type) string {
 	switch u := t.(type) {
 	case *setType:
 		return "(Array " + g.sortOf(u.elem) + " Bool)"
+	case realType:
+		return "Real"
 	}
 	switch u := t.Underlying().(type) {
 	case *types.Basic:
